@@ -19,7 +19,7 @@ func VGStack() (*Stack[int], []int) {
 
 func VHStackStep() {
 	s, pre := VGStack()
-	containers.VLinStep(containers.VLin{C: s, Push: s.Push, Pop: s.Pop, Peek: s.Peek, LIFO: true,
+	containers.VLinStep(containers.VLin{Name: "ArrayStack", C: s, Push: s.Push, Pop: s.Pop, Peek: s.Peek, LIFO: true,
 		Inv: func() { v.Assert(s.list != nil, "inv-list") }}, pre)
 }
 
